@@ -453,7 +453,10 @@ func SelfCopies(f *Func) []SelfCopy {
 				return true
 			})
 		}
-		if !(mapped >= 3 && mapped*2 >= keyed) && !(copyName.MatchString(shortFuncName(f)) && typeInSignature(f, named)) {
+		// only functions that say they copy (Dup*, copy*, clone*) and take the type they build: a literal
+		// that picks some fields of a same-typed value elsewhere is a projection, not a copy
+		_ = keyed
+		if !(copyName.MatchString(shortFuncName(f)) && typeInSignature(f, named)) {
 			return true
 		}
 		// the variable the literal is bound to
@@ -883,6 +886,7 @@ func UnguardedMapStores(f *Func) []UnguardedMapStore {
 	type st struct {
 		as      *ast.AssignStmt
 		guarded bool
+		excused bool
 	}
 	stores := map[types.Object][]st{}
 	ast.Inspect(f.Decl.Body, func(nd ast.Node) bool {
@@ -905,7 +909,36 @@ func UnguardedMapStores(f *Func) []UnguardedMapStore {
 		if _, isMap := mo.Type().Underlying().(*types.Map); !isMap {
 			return true
 		}
-		// guarded: an enclosing if tests !ok / v == nil where ok/v come from m[k] with the same key
+		// guarded: an enclosing if tests !ok / v == nil where ok/v come from m[k] with the same key,
+		// or the same key was looked up by an earlier statement of an enclosing block (guard-clause
+		// form: `v, ok := m[k]; if !ok { m[k] = x; continue }; …; m[k] = v`): such a store is excused,
+		// but only the strict if-form below makes the function one that "creates entries once"
+		excused := false
+		for p := parent[ast.Node(as)]; p != nil && !excused; p = parent[p] {
+			blk, ok := p.(*ast.BlockStmt)
+			if !ok {
+				continue
+			}
+			for _, st := range blk.List {
+				if st.End() > as.Pos() {
+					break
+				}
+				ast.Inspect(st, func(m ast.Node) bool {
+					if lix, ok := m.(*ast.IndexExpr); ok && m != ast.Node(ix) {
+						if lid, ok := ast.Unparen(lix.X).(*ast.Ident); ok && info.Uses[lid] == mo && SameExpr(info, lix.Index, ix.Index) {
+							excused = true
+						}
+					}
+					return !excused
+				})
+			}
+			if _, isLoop := parent[blk].(*ast.RangeStmt); isLoop {
+				break // lookups of earlier iterations do not count
+			}
+			if _, isLoop := parent[blk].(*ast.ForStmt); isLoop {
+				break
+			}
+		}
 		guarded := false
 		for p := parent[as]; p != nil && !guarded; p = parent[p] {
 			is, ok := p.(*ast.IfStmt)
@@ -943,7 +976,7 @@ func UnguardedMapStores(f *Func) []UnguardedMapStore {
 				}
 			}
 		}
-		stores[mo] = append(stores[mo], st{as, guarded})
+		stores[mo] = append(stores[mo], st{as, guarded, excused})
 		return true
 	})
 	var out []UnguardedMapStore
@@ -958,7 +991,7 @@ func UnguardedMapStores(f *Func) []UnguardedMapStore {
 			continue
 		}
 		for _, s := range ss {
-			if !s.guarded {
+			if !s.guarded && !s.excused {
 				out = append(out, UnguardedMapStore{s.as, mo.Name()})
 			}
 		}
